@@ -182,7 +182,7 @@ class ParseSource(Contract):
         if "ownership" in name or "exactly-one" in name:
             return ("C17", "C01", "C11")
         # parse_source is a function of the text alone: every property that quantifies over several texts relies on it
-        return ("C01", "C02", "C05", "C06", "C07", "C08", "C09", "C11", "C13", "C14", "C17")
+        return ("C01", "C02", "C05", "C06", "C07", "C08", "C09", "C11", "C13", "C14", "C17", "C12", "C15", "C03", "C10")
 
 
 class GenerateCode(Contract):
